@@ -112,7 +112,7 @@ void operator delete[](void *p, std::size_t, std::align_val_t) noexcept { operat
 namespace thr
 {
 static const int CAP = 16;
-static const char *names[CAP];
+static std::atomic<const char *> names[CAP];
 static std::atomic<int> count{0};
 static std::atomic<bool> armed{false};
 static inline void reset() { count.store(0); armed.store(true); }
@@ -121,7 +121,7 @@ static inline std::vector<std::string> list()
 {
   std::vector<std::string> v;
   int n = std::min(count.load(), CAP);
-  for (int i = 0; i < n; i++) v.push_back(names[i] ? names[i] : "?");
+  for (int i = 0; i < n; i++) { const char *p = names[i].load(); v.push_back(p ? p : "?"); }
   return v;
 }
 } // namespace thr
@@ -134,7 +134,7 @@ extern "C" __attribute__((noreturn)) void __cxa_throw(void *obj, void *tinfo, vo
   if (thr::armed.load(std::memory_order_relaxed))
   {
     int i = thr::count.fetch_add(1);
-    if (i < thr::CAP) thr::names[i] = ti ? ti->name() : "?";
+    if (i < thr::CAP) thr::names[i].store(ti ? ti->name() : "?");
   }
   real(obj, tinfo, dtor);
   __builtin_unreachable();
